@@ -11,7 +11,7 @@ from . import c03
 ID = 'C04'
 LEVEL = 'model_checking'
 RULE = ('E1 enumeration of (object, rigid motion, card spelling): objects = planes, sphere, cylinders, '
-        'one- and two-sheet cones, circular/elliptic tori, GQ, SQ, RPP, RCC; motions = 2 displacements x '
+        'one- and two-sheet cones, circular/elliptic tori, GQ, SQ, and every macrobody kind (RPP, RCC, BOX, SPH, RHP, REC, TRC, ELL, WED, ARB; facets referenced too); motions = 2 displacements x '
         '(identity, the 24 axis-permuting/flipping rotations, 30deg about z, 40deg about (1,1,1), one '
         'generic rotation); spellings = TRn on the surface card (12, 13, 3 entries, *TR), cell TRCL by '
         'number / inline 12 / inline 3 / *TRCL, implicit surface 1000*cell+surf referenced negatively, '
@@ -36,6 +36,9 @@ def obj_ref(kind):
     if kind == 'rcc':
         b = c03.body_rcc((0.5, 0.0, -1.0), (0.0, 0.0, 3.0), 1.5)
         return b.card, refsem.RefSurf(b.facets, b.inside)
+    if kind in MACRO:
+        b = MACRO[kind]()
+        return b.card, refsem.RefSurf(b.facets, b.inside)
     mn, p = OBJ[kind]
     return mn + ' ' + ' '.join(fmt(x) for x in p), refsem.mcnp_surface(mn, p)
 
@@ -50,8 +53,19 @@ OBJ = {
     'gq': ('gq', [1.0, 2.0, 0.5, 0.3, -0.2, 0.1, 1.0, -1.0, 0.5, -6.0]),
     'sq': ('sq', [1.0, 2.0, -0.5, 0.3, -0.2, 0.1, -4.0, 1.0, -1.0, 0.5]),
 }
+MACRO = {
+    'box': lambda: c03.body_box((-1.0, 0.5, -2.0), (3.0, 0.0, 0.0), (0.0, 0.0, 2.0), (0.0, -4.0, 0.0)),
+    'sph': lambda: c03.body_sph((1.0, -1.0, 0.5), 1.5),
+    'rhp': lambda: c03.body_rhp((0.0, 0.5, -1.0), (0.0, 0.0, 3.0), (1.5, 0.0, 0.0)),
+    'rec': lambda: c03.body_rec((0.0, 0.5, -1.0), (0.0, 3.0, 0.0), (2.0, 0.0, 0.0), 1.0),
+    'trc': lambda: c03.body_trc((0.5, 0.0, -1.0), (0.0, 0.0, 3.0), 2.0, 1.0),
+    'ell': lambda: c03.body_ell((0.5, -0.5, 0.0), (0.0, 2.5, 0.0), -1.25),
+    'wed': lambda: c03.body_wed((-1.0, -1.0, -1.0), (0.0, 2.0, 0.0), (3.0, 0.0, 0.0), (0.0, 0.0, -2.5)),
+    'arb': lambda: c03.body_arb([(0, 0, 0), (3, 0, 0), (0, 2.5, 0), (0.5, 0.5, 4)],
+                                [(1, 2, 3), (1, 2, 4), (2, 3, 4), (3, 1, 4)]),
+}
 OBJ_KINDS = ['px', 'p', 's', 'c/x', 'cz', 'kx+', 'kx-', 'k/y', 'k/z+', 'tz', 'tze', 'tx', 'gq', 'sq',
-             'rpp', 'rcc']
+             'rpp', 'rcc'] + sorted(MACRO)
 
 DISPL = [(0.0, 0.0, 0.0), (1.0, -2.0, 3.0)]
 _PERMS = refsem.signed_permutations()
@@ -133,7 +147,7 @@ def build_state(kind, rname, m, spelling):
             st.data = ['*tr7 ' + tr_numbers(m, True) + ' 1']
         else:
             st.data = ['*tr7 ' + tr_numbers(m, True)]
-        if kind in ('rpp', 'rcc'):
+        if kind in ('rpp', 'rcc') or kind in MACRO:
             for j in range(1, len(ref.comps) + 1):
                 st.cells.append('%d 0 -1.%d imp:n=1' % (20 + j, j)); st.expect[20 + j] = ('facet', j, -1)
                 st.cells.append('%d 0 1.%d imp:n=1' % (30 + j, j)); st.expect[30 + j] = ('facet', j, 1)
@@ -153,7 +167,7 @@ def build_state(kind, rname, m, spelling):
         else:
             kw = '*trcl=(%s)' % tr_numbers(m, True)
         st.cells = ['1 0 -1 %s imp:n=1' % kw, '2 0 1 %s imp:n=1' % kw]
-        if kind in ('rpp', 'rcc'):
+        if kind in ('rpp', 'rcc') or kind in MACRO:
             # facet references inside the transformed cell
             for j in range(1, len(ref.comps) + 1):
                 st.cells.append('%d 0 -1.%d %s imp:n=1' % (20 + j, j, kw)); st.expect[20 + j] = ('facet', j, -1)
